@@ -8,6 +8,8 @@ MODULE = 'Flowdyn.Props.C07'
 import core
 THEOREMS = core.theorems_in(['C07.lean', 'C07b.lean'], 'Flowdyn.C07') + ['Flowdyn.C06.implicit_time', 'Flowdyn.C06.trapezoidal_time', 'Flowdyn.C06.gear_time', 'Flowdyn.C06.gear_first_is_trapezoidal'] + ['Flowdyn.C05.%s_step' % c for c in ('explicit', 'rk2', 'rk2_heun', 'rk3_heun', 'rk3ssp', 'rk4')] + ['Flowdyn.C05.lsStep_snoc']
 AUDIT_IMPORTS = ['Flowdyn.Props.C06', 'Flowdyn.Props.C05', 'Flowdyn.Props.C07b']
+AUDIT_IMPORTS = AUDIT_IMPORTS + ['Flowdyn.Props.C07c']
+THEOREMS = THEOREMS + [t for t in core.theorems_in(['C07c.lean'], 'Flowdyn.C07')]
 PARTIAL = {}
 LEVEL_NOTE = "driver state machine (solve/restart/_solve) modelled and proved; integrator time advance from C05/C06 models"
 
@@ -22,7 +24,7 @@ def layers(ctx):
 def small_problem(rng, name):
     """a small periodic problem on which every integrator is stable at the chosen CFL"""
     model = str(rng.choice(['conv', 'burgers', 'euler']))
-    cfg = cfg1d.rand_config(rng, model=model, per=True, n=int(rng.integers(4, 9)), smooth=True, meshkind='uni',
+    cfg = cfg1d.rand_config(rng, units=False, model=model, per=True, n=int(rng.integers(4, 9)), smooth=True, meshkind='uni',
                             scheme=['extrapol1'] if model != 'conv' else cfg1d.rand_scheme(rng, ['extrapol1', 'extrapol2', 'extrapol3']))
     if model == 'burgers':
         cfg['prim'] = [[float(x) for x in (2.0 + 0.4 * rng.uniform(-1, 1, cfg['n']))]]
